@@ -764,8 +764,11 @@ func genPQ(name string, rng *hx.Rng, n int) []string {
 	np := rng.Range(2, 6)
 	// the pool of priorities of this history; bounds are drawn from the same pool (plus one beyond)
 	var pool []string
+	subSecond := name == "tpq" && rng.Chance(1, 3) // instants 1 ns apart inside one second (a comparison at a coarser granularity merges them)
 	for k := -1; k < np; k++ {
-		if name == "tpq" {
+		if subSecond {
+			pool = append(pool, instantString(epoch.Add(time.Duration(k))))
+		} else if name == "tpq" {
 			pool = append(pool, instantString(nearInstant(k)))
 		} else {
 			pool = append(pool, strconv.Itoa(k*spread))
